@@ -14,9 +14,10 @@ REQUIRED_THEOREMS = [
     "Ink.C13.continue_handler_leaves_nothing_pending",
 ]
 RULE = ("a case = one fault-raising story x one choice sequence, played once with an error handler and once "
-        "without; non-trivial when at least one warning or error was raised; distinct by story + choices")
+        "without, and once with a handler and every line delivered in time slices; non-trivial when at least one "
+        "warning or error was raised; distinct by story + choices")
 ASSUMPTIONS = ["messages are compared as text; the two runs make the same choices",
-               "time-limited continues are excluded here (a pause delivers what has been raised so far; see C08)"]
+               "in the sliced run the deliveries of all slices of one line are taken together"]
 EXPLANATION = ("Theorems about Story.deliver and its lifting to continue_internal (handler: delivered = pending, "
                "pending empty afterwards incl. a live snapshot; no handler: error => Err with lists kept, warnings "
                "never Err; error stops the story). Oracle: per-continue messages delivered to a handler equal the "
